@@ -6,12 +6,20 @@ import (
 	"go/ast"
 	"go/parser"
 	"go/token"
+	"os"
 	"strconv"
 )
 
-const File = "/repo/tagformat/caseconversion/case_conversion.go"
+// RepoRoot is /repo unless VERIF_REPO points at a scratch worktree.
+func RepoRoot() string {
+	if r := os.Getenv("VERIF_REPO"); r != "" {
+		return r
+	}
+	return "/repo"
+}
 
 func Load() ([]string, error) {
+	File := RepoRoot() + "/tagformat/caseconversion/case_conversion.go"
 	fset := token.NewFileSet()
 	f, err := parser.ParseFile(fset, File, nil, 0)
 	if err != nil {
